@@ -145,7 +145,8 @@ def build(tree):
     ctor = tree.get('via_constructor', True)
 
     def make(factory, attrs):
-        attrs = copy.deepcopy(attrs)
+        attrs = {k: (gen._fresh(v) if k != 'preamble' else v)
+                 for k, v in copy.deepcopy(attrs).items()}
 
         if ctor:
             return factory(**attrs)
